@@ -41,6 +41,18 @@ CHECKS = {
     note='Trusted: ply semantics; textual identity of master regexes implies equal lexing. Outside: longer inputs; language-equivalence of textually different master patterns is reported as inconclusive, not decided.',
     technique='bounded SAT in-equivalence of LALR table sets (LR-SAT) + symbolic execution (z3 strings) of the lexer rule functions',
     engine='GX+SX'),
+ 'C08': dict(
+    level=('other', 'Inductive per production: the node every real p_* action builds from SYMBOLIC slot positions (z3 Ints, symbolic newline index) is printed by the real pretty, minify and obfuscating printers; for every fragment with an explicit position z3 decides - for all layouts at once - that it is the position of a token of the production spelled like the fragment (or like the recorded original name). '
+                    'Backed by a replay leg over corpus x 6 layouts (LF, CR, CRLF, U+2028/9, multi-line tokens) x 3 printers x comments on/off with two files chained, judged against the source text.', 'DESIGN.md C08'),
+    note='Trusted: ply tracking (position of a non-terminal = its first token), validated by the replay leg; the lexer guarantee (C06) and node invariant (C11) are hypotheses of the inductive step. AUTOSEMI semicolons exempt as the property says.',
+    technique='symbolic execution of the real parser actions and printers on symbolic token positions (z3 Ints + uninterpreted newline index), per production; whole-program replay',
+    engine='SX'),
+ 'C11': dict(
+    level=('other', 'Inductive per production: every real p_* action runs on SYMBOLIC slot positions (z3 Ints) and a symbolic newline index (uninterpreted function) for every combination of child shapes; for every node created z3 decides that offset/line/column agree, that the position is the start of one of the node\'s own tokens (for-clause placeholders exempt) and that every recorded token position is where a token of that spelling stands - for all layouts at once. '
+                    'Replay leg: every node of corpus programs under 6 layouts against an independent line/column counter and the source text.', 'DESIGN.md C11'),
+    note='Trusted: ply tracking stub (validated by replay); lexer guarantee "offset lies on its recorded line" is C06; induction hypothesis on children.',
+    technique='symbolic execution of the real parser actions on symbolic token positions (z3 Ints + uninterpreted newline index), inductive per production; whole-program replay',
+    engine='SX'),
  'C09': dict(
     level=('other', 'Bounded/inductive symbolic execution of the real sourcemap.write, normalize_mapping_line(s), Names, Bookkeeper, encode_sourcemap (SX, z3 Ints for every position, length and index): '
                     'W = one step from an arbitrary valid writer state for each of 504 fragment shapes (induction over stream length), N = normalisation of symbolic lines of <= 4/5 segments with arbitrary carry (induction over lines), '
